@@ -477,11 +477,13 @@ func raceSignature(blk string) (string, bool) {
 			if k := strings.Index(fn, "("); k > 0 {
 				fn = fn[:k]
 			}
-			if strings.HasPrefix(fn, "runtime.") || strings.HasPrefix(fn, "sync.") || strings.HasPrefix(fn, "sync/atomic.") || strings.HasPrefix(fn, "errors.") || strings.HasPrefix(fn, "reflect.") {
-				continue // library helper: look at its caller
+			isTarget := strings.Contains(fn, "github.com/openziti/storage") || strings.Contains(fn, "antlr4-go")
+			isHarness := strings.HasPrefix(fn, "verif/harness") || strings.HasPrefix(fn, "main.")
+			if !isTarget && !isHarness {
+				continue // standard library / third party helper (errors.As, reflect, bbolt, ...): attribute to its caller
 			}
 			tops = append(tops, fn)
-			if strings.Contains(fn, "github.com/openziti/storage") || strings.Contains(fn, "antlr4-go") {
+			if isTarget {
 				inTarget = true
 			}
 			break
